@@ -53,6 +53,8 @@ type Hooks struct {
 	Entered   atomic.Int32
 	insts     []*inst
 	OverlapAt string
+	// EndedAfterTerminate: name of a callback that was still in progress when terminate was entered
+	EndedAfterTerminate string
 	mu        sync.Mutex
 	Callbacks []string // callback log: names in order
 	TermCount atomic.Int32
@@ -71,6 +73,7 @@ func ProbeFactory(h *Hooks) gen.ProcessFactory {
 
 // inst is the per-process part of the instrumentation.
 type inst struct {
+	termEntered atomic.Bool
 	depth   atomic.Int32
 	entered atomic.Int32
 	counter int // deliberately non-atomic read-modify-write
@@ -85,6 +88,9 @@ func (h *Hooks) newInst() *inst {
 }
 
 func (h *Hooks) enter(i *inst, cb string) {
+	if cb == "terminate" {
+		i.termEntered.Store(true)
+	}
 	d := i.depth.Add(1)
 	i.entered.Add(1)
 	h.Entered.Add(1)
@@ -113,6 +119,19 @@ func (h *Hooks) enter(i *inst, cb string) {
 
 func (i *inst) exit() { i.depth.Add(-1) }
 
+// leave ends a callback: if the terminate callback of this process has already been entered,
+// a callback that was still in progress then is finishing after it.
+func (h *Hooks) leave(i *inst, cb string) {
+	if cb != "terminate" && cb != "start" && i.termEntered.Load() {
+		h.mu.Lock()
+		if h.EndedAfterTerminate == "" {
+			h.EndedAfterTerminate = cb
+		}
+		h.mu.Unlock()
+	}
+	i.exit()
+}
+
 // LostUpdates is the number of callback executions whose counter update was
 // overwritten by an overlapping callback of the same process.
 func (h *Hooks) LostUpdates() int {
@@ -125,6 +144,12 @@ func (h *Hooks) LostUpdates() int {
 	return n
 }
 
+func (h *Hooks) endedAfterTerminate() string {
+	h.mu.Lock()
+	defer h.mu.Unlock()
+	return h.EndedAfterTerminate
+}
+
 func (h *Hooks) CallbackLog() []string {
 	h.mu.Lock()
 	defer h.mu.Unlock()
@@ -134,7 +159,7 @@ func (h *Hooks) CallbackLog() []string {
 func (p *Probe) Init(args ...any) error {
 	h := p.H
 	h.enter(p.i, "init")
-	defer p.i.exit()
+	defer h.leave(p.i, "init")
 	p.SetTrapExit(h.Trap)
 	if h.Init != nil {
 		return h.Init(p, args...)
@@ -145,7 +170,7 @@ func (p *Probe) Init(args ...any) error {
 func (p *Probe) HandleMessage(from gen.PID, m any) error {
 	h := p.H
 	h.enter(p.i, "message")
-	defer p.i.exit()
+	defer h.leave(p.i, "message")
 	if h.Message != nil {
 		return h.Message(p, from, m)
 	}
@@ -155,7 +180,7 @@ func (p *Probe) HandleMessage(from gen.PID, m any) error {
 func (p *Probe) HandleCall(from gen.PID, ref gen.Ref, req any) (any, error) {
 	h := p.H
 	h.enter(p.i, "call")
-	defer p.i.exit()
+	defer h.leave(p.i, "call")
 	if h.Call != nil {
 		return h.Call(p, from, ref, req)
 	}
@@ -165,7 +190,7 @@ func (p *Probe) HandleCall(from gen.PID, ref gen.Ref, req any) (any, error) {
 func (p *Probe) HandleEvent(ev gen.MessageEvent) error {
 	h := p.H
 	h.enter(p.i, "event")
-	defer p.i.exit()
+	defer h.leave(p.i, "event")
 	if h.Event != nil {
 		return h.Event(p, ev)
 	}
@@ -175,7 +200,7 @@ func (p *Probe) HandleEvent(ev gen.MessageEvent) error {
 func (p *Probe) HandleInspect(from gen.PID, item ...string) map[string]string {
 	h := p.H
 	h.enter(p.i, "inspect")
-	defer p.i.exit()
+	defer h.leave(p.i, "inspect")
 	if h.Inspect != nil {
 		return h.Inspect(p, from, item...)
 	}
@@ -185,7 +210,7 @@ func (p *Probe) HandleInspect(from gen.PID, item ...string) map[string]string {
 func (p *Probe) HandleLog(m gen.MessageLog) error {
 	h := p.H
 	h.enter(p.i, "log")
-	defer p.i.exit()
+	defer h.leave(p.i, "log")
 	if h.Log != nil {
 		return h.Log(p, m)
 	}
@@ -195,7 +220,7 @@ func (p *Probe) HandleLog(m gen.MessageLog) error {
 func (p *Probe) Terminate(reason error) {
 	h := p.H
 	h.enter(p.i, "terminate")
-	defer p.i.exit()
+	defer h.leave(p.i, "terminate")
 	h.TermCount.Add(1)
 	if h.Terminate != nil {
 		h.Terminate(p, reason)
@@ -217,14 +242,14 @@ func ProbeSupFactory(h *Hooks) gen.ProcessFactory {
 func (p *ProbeSup) Init(args ...any) (act.SupervisorSpec, error) {
 	h := p.H
 	h.enter(p.i, "init")
-	defer p.i.exit()
+	defer h.leave(p.i, "init")
 	return h.SupInit(p, args...)
 }
 
 func (p *ProbeSup) HandleChildStart(name gen.Atom, pid gen.PID) error {
 	h := p.H
 	h.enter(p.i, "childstart")
-	defer p.i.exit()
+	defer h.leave(p.i, "childstart")
 	if h.ChildStart != nil {
 		return h.ChildStart(p, name, pid)
 	}
@@ -234,7 +259,7 @@ func (p *ProbeSup) HandleChildStart(name gen.Atom, pid gen.PID) error {
 func (p *ProbeSup) HandleChildTerminate(name gen.Atom, pid gen.PID, reason error) error {
 	h := p.H
 	h.enter(p.i, "childterminate")
-	defer p.i.exit()
+	defer h.leave(p.i, "childterminate")
 	if h.ChildTerminate != nil {
 		return h.ChildTerminate(p, name, pid, reason)
 	}
@@ -244,7 +269,7 @@ func (p *ProbeSup) HandleChildTerminate(name gen.Atom, pid gen.PID, reason error
 func (p *ProbeSup) HandleMessage(from gen.PID, m any) error {
 	h := p.H
 	h.enter(p.i, "message")
-	defer p.i.exit()
+	defer h.leave(p.i, "message")
 	if h.SupMessage != nil {
 		return h.SupMessage(p, from, m)
 	}
@@ -254,7 +279,7 @@ func (p *ProbeSup) HandleMessage(from gen.PID, m any) error {
 func (p *ProbeSup) HandleCall(from gen.PID, ref gen.Ref, req any) (any, error) {
 	h := p.H
 	h.enter(p.i, "call")
-	defer p.i.exit()
+	defer h.leave(p.i, "call")
 	if h.SupCall != nil {
 		return h.SupCall(p, from, ref, req)
 	}
@@ -264,7 +289,7 @@ func (p *ProbeSup) HandleCall(from gen.PID, ref gen.Ref, req any) (any, error) {
 func (p *ProbeSup) HandleInspect(from gen.PID, item ...string) map[string]string {
 	h := p.H
 	h.enter(p.i, "inspect")
-	defer p.i.exit()
+	defer h.leave(p.i, "inspect")
 	if h.Inspect != nil {
 		return h.Inspect(nil, from, item...)
 	}
@@ -274,14 +299,14 @@ func (p *ProbeSup) HandleInspect(from gen.PID, item ...string) map[string]string
 func (p *ProbeSup) HandleEvent(ev gen.MessageEvent) error {
 	h := p.H
 	h.enter(p.i, "event")
-	defer p.i.exit()
+	defer h.leave(p.i, "event")
 	return nil
 }
 
 func (p *ProbeSup) Terminate(reason error) {
 	h := p.H
 	h.enter(p.i, "terminate")
-	defer p.i.exit()
+	defer h.leave(p.i, "terminate")
 	h.TermCount.Add(1)
 	if h.SupTerminate != nil {
 		h.SupTerminate(p, reason)
@@ -303,14 +328,14 @@ func ProbePoolFactory(h *Hooks) gen.ProcessFactory {
 func (p *ProbePool) Init(args ...any) (act.PoolOptions, error) {
 	h := p.H
 	h.enter(p.i, "init")
-	defer p.i.exit()
+	defer h.leave(p.i, "init")
 	return h.PoolInit(p, args...)
 }
 
 func (p *ProbePool) HandleMessage(from gen.PID, m any) error {
 	h := p.H
 	h.enter(p.i, "message")
-	defer p.i.exit()
+	defer h.leave(p.i, "message")
 	if h.PoolMessage != nil {
 		return h.PoolMessage(p, from, m)
 	}
@@ -320,7 +345,7 @@ func (p *ProbePool) HandleMessage(from gen.PID, m any) error {
 func (p *ProbePool) HandleCall(from gen.PID, ref gen.Ref, req any) (any, error) {
 	h := p.H
 	h.enter(p.i, "call")
-	defer p.i.exit()
+	defer h.leave(p.i, "call")
 	if h.PoolCall != nil {
 		return h.PoolCall(p, from, ref, req)
 	}
@@ -330,7 +355,7 @@ func (p *ProbePool) HandleCall(from gen.PID, ref gen.Ref, req any) (any, error) 
 func (p *ProbePool) HandleInspect(from gen.PID, item ...string) map[string]string {
 	h := p.H
 	h.enter(p.i, "inspect")
-	defer p.i.exit()
+	defer h.leave(p.i, "inspect")
 	if h.Inspect != nil {
 		return h.Inspect(nil, from, item...)
 	}
@@ -340,14 +365,14 @@ func (p *ProbePool) HandleInspect(from gen.PID, item ...string) map[string]strin
 func (p *ProbePool) HandleEvent(ev gen.MessageEvent) error {
 	h := p.H
 	h.enter(p.i, "event")
-	defer p.i.exit()
+	defer h.leave(p.i, "event")
 	return nil
 }
 
 func (p *ProbePool) Terminate(reason error) {
 	h := p.H
 	h.enter(p.i, "terminate")
-	defer p.i.exit()
+	defer h.leave(p.i, "terminate")
 	h.TermCount.Add(1)
 	if h.PoolTerminate != nil {
 		h.PoolTerminate(p, reason)
@@ -372,7 +397,7 @@ func NewProbeMeta(h *Hooks) *ProbeMeta {
 func (m *ProbeMeta) Init(process gen.MetaProcess) error {
 	h := m.H
 	h.enter(m.i, "init")
-	defer m.i.exit()
+	defer h.leave(m.i, "init")
 	m.MetaProcess = process
 	if h.MetaInit != nil {
 		return h.MetaInit(m)
@@ -404,7 +429,7 @@ func (m *ProbeMeta) Start() error {
 func (m *ProbeMeta) HandleMessage(from gen.PID, msg any) error {
 	h := m.H
 	h.enter(m.i, "message")
-	defer m.i.exit()
+	defer h.leave(m.i, "message")
 	if h.MetaMessage != nil {
 		return h.MetaMessage(m, from, msg)
 	}
@@ -414,7 +439,7 @@ func (m *ProbeMeta) HandleMessage(from gen.PID, msg any) error {
 func (m *ProbeMeta) HandleCall(from gen.PID, ref gen.Ref, req any) (any, error) {
 	h := m.H
 	h.enter(m.i, "call")
-	defer m.i.exit()
+	defer h.leave(m.i, "call")
 	if h.MetaCall != nil {
 		return h.MetaCall(m, from, ref, req)
 	}
@@ -424,14 +449,14 @@ func (m *ProbeMeta) HandleCall(from gen.PID, ref gen.Ref, req any) (any, error) 
 func (m *ProbeMeta) HandleInspect(from gen.PID, item ...string) map[string]string {
 	h := m.H
 	h.enter(m.i, "inspect")
-	defer m.i.exit()
+	defer h.leave(m.i, "inspect")
 	return map[string]string{"probe": h.Name}
 }
 
 func (m *ProbeMeta) Terminate(reason error) {
 	h := m.H
 	h.enter(m.i, "terminate")
-	defer m.i.exit()
+	defer h.leave(m.i, "terminate")
 	h.TermCount.Add(1)
 	if h.MetaTerminate != nil {
 		h.MetaTerminate(m, reason)
